@@ -17,7 +17,7 @@ type progLayout struct {
 	HNMI    uint16 `json:"hnmi"`  // 0x0066
 	IPage   uint8  `json:"ipage"` // IM2 vector table page
 	Cnt     uint16 `json:"cnt"`   // handler invocation counter byte
-	Halt    uint16 `json:"halt"`  // address of the final HALT (a second HALT follows)
+	Halt    uint16 `json:"halt"`  // address of the final HALT (three more HALTs follow)
 	NoRST0  bool   `json:"norst0"`
 	CodeEnd uint16 `json:"codeend"`
 }
@@ -311,7 +311,7 @@ func genProgram(t *rapid.T, maxStmts int) *program {
 		g.stmt(0)
 	}
 	L.Halt = g.a.pc()
-	g.a.emit(0x76, 0x76)
+	g.a.emit(0x76, 0x76, 0x76, 0x76) // room for interrupts that release the CPU from HALT (return address HALT+1)
 	// subroutines
 	var subAddr [3]uint16
 	for i := range subAddr {
